@@ -162,6 +162,23 @@ func advGrid() []advCase {
 		add(fmt.Sprintf("array-%d-nested", n), exp, func() string {
 			return "local r = {{" + items() + "7}, {1, 2}}\nreturn #r[1], r[1][" + strconv.Itoa(n) + "]"
 		})
+		// the constructor used DIRECTLY as an operand (its last emitted word is then the one operand propagation looks at:
+		// for > 25550 items that is the raw batch number behind the extended SETLIST), in a chunk/function without locals
+		ctor := func() string { return "{" + items() + "7}" }
+		add(fmt.Sprintf("array-%d-operand-len", n), exp, func() string { return "return #" + ctor() + ", (" + ctor() + ")[" + strconv.Itoa(n) + "]" })
+		add(fmt.Sprintf("array-%d-operand-len-arith", n), fmt.Sprintf("ok:%d,%d", n+1, -n), func() string { return "return #" + ctor() + " + 1, -#" + ctor() })
+		add(fmt.Sprintf("array-%d-operand-call", n), exp, func() string {
+			return "local function g(t, u) return #t, u[" + strconv.Itoa(n) + "] end\nreturn g(" + ctor() + ", " + ctor() + ")"
+		})
+		add(fmt.Sprintf("array-%d-operand-compare", n), "ok:false,true,7", func() string {
+			return "return " + ctor() + " == nil, not not " + ctor() + ", (" + ctor() + " or 1)[" + strconv.Itoa(n) + "]"
+		})
+		add(fmt.Sprintf("array-%d-operand-in-function", n), exp, func() string {
+			return "local function h() return #" + ctor() + " end\nlocal function k() local x = " + ctor() + "[" + strconv.Itoa(n) + "] return x end\nreturn h(), k()"
+		})
+		add(fmt.Sprintf("array-%d-operand-store", n), exp, func() string {
+			return "G = #" + ctor() + "\nT = {n = #" + ctor() + ", " + ctor() + "}\nreturn T.n, T[1][G]"
+		})
 	}
 	for _, n := range []int{511, 512, 10000} {
 		n := n
@@ -314,7 +331,7 @@ func advCases(r *Rng, n int, full bool) []Case {
 		sel = grid
 	} else {
 		must := []string{"assign-targets-511", "assign-targets-600", "locals-199-call", "locals-200-genfor", "array-25551-existing-local",
-			"array-25600-const", "upvalues-255-read", "upvalues-256-read", "upvalues-290-read", "nest-200-functions",
+			"array-25600-const", "array-25551-operand-len", "array-25600-operand-len-arith", "array-25551-operand-call", "array-25601-operand-compare", "array-25551-operand-in-function", "array-25552-operand-store", "upvalues-255-read", "upvalues-256-read", "upvalues-290-read", "nest-200-functions",
 			"thread-70000-70000-ifelse-nested", "thread-65535-65536-ifelse-nested", "thread-65536-65536-while-if-break", "thread-131069-1-repeat-skip", "thread-65535-65536-goto-chain"}
 		byName := map[string]advCase{}
 		var small, big []advCase
